@@ -42,7 +42,33 @@ COMPONENTS = {
 
 
 def gen(rng, tier):
+    if rng.random() < 0.12:
+        return gen_timeout_race(rng, tier)
     return gen_profile(rng, tier)
+
+
+def gen_timeout_race(rng, tier):
+    """A timed receive whose deadline coincides (same simulated instant) with the arrival of the last items and of
+    the close: whichever order the woken tasks run in, and wherever receive() is preempted, the items come first."""
+    backend = rng.choice(["thread", "thread", "main_thread_only"])
+    transport = rng.choice(["popen", "popen", "socket"])
+    specs, gwi = L.gateways_for(transport, backend)
+    T = rng.choice([0.05, 0.5, 2.0])
+    n = rng.randrange(1, 4)
+    early = rng.randrange(0, 2)
+    label = "c0"
+    wops = [["send", label, f"{label}:w2i:1:{k}", L.gen_fill(rng)] for k in range(early)]
+    wops.append(["sleep", T * rng.choice([1, 1, 2])])
+    wops += [["send", label, f"{label}:w2i:1:{early + k}", L.gen_fill(rng)] for k in range(n)]
+    rops = [["recv_t", label, T, 400] for _ in range(early + n)] + [["recv", label]]
+    actors = [{"side": "i", "gw": gwi, "chan": None,
+               "ops": [["exec", label, 1, gwi], ["spawn", 2], ["join", 2, 900], ["terminate", 10.0]]},
+              {"side": "w", "gw": gwi, "chan": label, "ops": wops},
+              {"side": "i", "gw": gwi, "chan": label, "ops": rops}]
+    pa = [["receive", rng.randrange(1, 60)] for _ in range(rng.randrange(1, 4))]
+    return {"gateways": specs, "actors": actors, "knobs": {"pipe_cap": 65536, "sock_cap": 65536, "chunk": "greedy"},
+            "strategy": L.gen_strategy(rng), "preempt": [], "preempt_at": pa, "faults": [], "transport": transport,
+            "backend": backend, "gwi": gwi}
 
 
 def gen_profile(rng, tier, senders=(1, 2), big_p=0.25, transports=(45, 12, 18, 25)):
